@@ -105,3 +105,189 @@ def sparqlResults (s : Shape) (constraintNode : Term) (extraMsgs : List Term) (f
         (messages := some (resultMessages s.messages extraMsgs (some fdict)))
 
 end Pyshacl
+
+namespace Pyshacl
+
+/-! ### SPARQL-based constraint components (sh:ConstraintComponent with ASK / SELECT validators) -/
+
+def shConstraintComponent := sh "ConstraintComponent"
+def shParameter := sh "parameter"
+def shOptional := sh "optional"
+def shValidator := sh "validator"
+def shNodeValidator := sh "nodeValidator"
+def shPropertyValidator := sh "propertyValidator"
+def shAsk := sh "ask"
+def shSPARQLAskValidator := sh "SPARQLAskValidator"
+def shSPARQLSelectValidator := sh "SPARQLSelectValidator"
+
+/-- `SHACLParameter.localname`: after the first '#', else after the last '/' -/
+def localName (iri : String) : Option String :=
+  match iri.splitOn "#" with
+  | first :: second :: rest => if first = "" then none else some (String.intercalate "#" (second :: rest))
+  | _ =>
+    match (iri.splitOn "/").reverse with
+    | last :: _ :: _ => some last
+    | _ => none
+
+structure Param where
+  path : Term
+  name : String
+  optional : Bool
+  deriving Repr, DecidableEq
+
+structure Component where
+  node : Term
+  params : List Param
+  validators : List Term
+  nodeValidators : List Term
+  propertyValidators : List Term
+  deriving Repr
+
+/-- `ShapesGraph._find_custom_constraints` + `CustomConstraintComponentFactory` (SPARQL components only) -/
+def findComponents (sg : Graph) : Except Failure (List Component) :=
+  let direct := sg.subjects rdfType shConstraintComponent
+  let viaSub := (sg.subjects rdfsSubClassOf shConstraintComponent).flatMap fun sc => sg.subjects rdfType sc
+  let nodes := (dedup (direct ++ viaSub)).filter fun n => match n with
+    | .iri s => !(shNs.isPrefixOf s)
+    | _ => true
+  mapE (fun n =>
+    let pnodes := dedup (sg.objects n shParameter)
+    if pnodes = [] then .error Failure.constraintLoad else
+    match mapE (fun pn => match dedup (sg.objects pn shPath) with
+        | [.iri pth] =>
+          (match localName pth with
+            | some nm =>
+              let opt := match sg.objects pn shOptional with
+                | [.lit l] => (match l.val with | .bool b => some b | _ => none)
+                | [] => some false
+                | _ => none
+              (match opt with
+                | some b => .ok (⟨.iri pth, nm, b⟩ : Param)
+                | none => .error Failure.constraintLoad)
+            | none => .error (Failure.runtime ""))
+        | _ => .error Failure.constraintLoad) pnodes with
+    | .error e => .error e
+    | .ok ps =>
+      if ps.all (·.optional) then .error Failure.constraintLoad else
+      let nv := dedup (sg.objects n shNodeValidator)
+      let pv := dedup (sg.objects n shPropertyValidator)
+      let v := (dedup (sg.objects n shValidator)).filter fun x => x ∉ nv ∧ x ∉ pv
+      .ok (⟨n, ps.filter (!·.optional) ++ ps.filter (·.optional), v, nv, pv⟩ : Component)) nodes
+
+/-- `Shape.find_custom_constraints`: a component applies when all its mandatory parameters have values -/
+def applicableComponents (sg : Graph) (comps : List Component) (shape : Term) : List Component :=
+  comps.filter fun c => (c.params.filter (!·.optional)).all fun p => sg.objects shape p.path ≠ []
+
+inductive ValidatorKind where | ask | select
+  deriving DecidableEq, Repr
+
+/-- `SPARQLConstraintComponentValidator.__new__`: which kind of validator a node is -/
+def validatorKind (sg : Graph) (v : Term) : Option ValidatorKind :=
+  let types := sg.objects v rdfType
+  if shSPARQLSelectValidator ∈ types then some .select
+  else if shSPARQLAskValidator ∈ types then some .ask
+  else if sg.objects v shSelect ≠ [] then some .select
+  else if sg.objects v shAsk ≠ [] then some .ask
+  else none
+
+/-- `SPARQLConstraintComponent.make_validator_for_shape` -/
+def chooseValidator (sg : Graph) (c : Component) (isProp : Bool) : Except Failure (Term × ValidatorKind) :=
+  let pick : Option (Term × Bool) :=       -- (validator node, must be SELECT)
+    if isProp ∧ c.propertyValidators ≠ [] then c.propertyValidators.head?.map (·, true)
+    else if !isProp ∧ c.nodeValidators ≠ [] then c.nodeValidators.head?.map (·, true)
+    else c.validators.head?.map (·, false)
+  match pick with
+  | none => .error .constraintLoad
+  | some (v, mustSelect) =>
+    match validatorKind sg v with
+    | none => .error .constraintLoad
+    | some k =>
+      if mustSelect ∧ k ≠ .select then .error .constraintLoad
+      else if !mustSelect ∧ k ≠ .ask then .error .constraintLoad
+      else .ok (v, k)
+
+/-- `bind_messages(param_map)`: each `{$var}` / `{?var}` found in the template whose var is in the map is
+    replaced once (first occurrence), in order of occurrence -/
+def substFirst (msg pat val : String) : String :=
+  match msg.splitOn pat with
+  | a :: b :: rest => a ++ val ++ String.intercalate pat (b :: rest)
+  | _ => msg
+
+def bindMessage (msg : String) (args : List (String × Term)) : String :=
+  -- the code scans the placeholders of the template left to right; for each one whose variable is bound it
+  -- substitutes the first remaining match of `{[$?]var}`
+  let rec go (fuel : Nat) (m : String) (pending : List String) : String :=
+    match fuel, pending with
+    | 0, _ => m
+    | _, [] => m
+    | fuel+1, var :: rest =>
+      match args.find? (·.1 = var) with
+      | none => go fuel m rest
+      | some (_, val) =>
+        let i1 := (m.splitOn ("{$" ++ var ++ "}")).head!.length
+        let i2 := (m.splitOn ("{?" ++ var ++ "}")).head!.length
+        let m' := if i1 ≤ i2 then substFirst m ("{$" ++ var ++ "}") (termText val)
+                  else substFirst m ("{?" ++ var ++ "}") (termText val)
+        go fuel m' rest
+  -- placeholders in order of occurrence
+  let vars : List String := ((msg.splitOn "{").drop 1).filterMap fun chunk =>
+    match chunk.splitOn "}" with
+    | inner :: _ :: _ =>
+      if inner.startsWith "$" ∨ inner.startsWith "?" then some (inner.drop 1).toString else none
+    | _ => none
+  go (vars.length + 1) msg vars
+
+/-- python truthiness of an optional term (`if p or v2 or t`) -/
+def pyTruthy : Option Term → Bool
+  | none => false
+  | some (.lit l) => (match l.val with | .none => l.lex ≠ "" | _ => litTruthy l)   -- rdflib `Literal.__bool__`
+  | some _ => true
+
+/-- opaque engine for validators: (validator, shape, focus, value) ↦ ASK answer / SELECT rows -/
+inductive ValidatorAnswer where
+  | ask (b : Bool)
+  | rows (sols : List Sol)
+  deriving Repr
+
+/-- results of one bound validator (`BoundShapeValidatorComponent.evaluate`) for one focus node -/
+def componentResults (s : Shape) (comp : Component) (kind : ValidatorKind) (valMsgs : List Term)
+    (paramMap : List (String × Term)) (f : Term) (vs : List Term)
+    (answer : Term → Option ValidatorAnswer) : Except Failure (List Result) :=
+  let msgsFor := fun (args : List (String × Term)) => valMsgs.map fun m => match m with
+    | .lit l => Term.lit { l with lex := bindMessage l.lex args }
+    | t => t
+  let baseArgs := fun (v : Term) => paramMap ++ [("this", f), ("value", v)] ++
+    (match s.path with | some p => if s.isProp then [("path", p)] else [] | none => [])
+  let override := fun (args : List (String × Term)) (k : String) (v : Term) => (args.filter (·.1 ≠ k)) ++ [(k, v)]
+  match kind with
+  | .ask =>
+    (match mapE (fun v => match answer v with
+        | none => .error (Failure.raw "validator-table-miss")
+        | some a => .ok (v, a)) vs with
+    | .error e => .error e
+    | .ok answers =>
+      .ok (answers.flatMap fun (v, a) =>
+        let reportVal := if s.isProp then none else some v
+        match a with
+        | .ask b =>
+          if b then [] else
+            [mkResult s .sparql f reportVal (component := some comp.node) (messages := some (resultMessages s.messages (msgsFor (baseArgs v)) none))]
+        | _ => []))
+  | .select =>
+    -- evaluated once for the focus node; ?value is a result variable
+    (match answer f with
+    | none => .error (Failure.raw "validator-table-miss")
+    | some (.rows sols) =>
+      let reportVal := if s.isProp then none else some f
+      .ok ((dedup (sols.filterMap fun sol =>
+          let t := sol.get "this"; let p := sol.get "path"; let v2 := sol.get "value"
+          if t.isNone ∧ p.isNone ∧ v2.isNone then none else some (t, p, v2))).map fun (t, p, v2) =>
+            let args0 := baseArgs f
+            let args1 := match v2 with | some x => override args0 "value" x | none => args0
+            let args2 := match p with | some x => override args1 "path" x | none => args1
+            let args3 := match t with | some x => override args2 "this" x | none => args2
+            mkResult s .sparql (t.getD f) (match v2 with | some x => some x | none => reportVal) (resultPath := p)
+              (component := some comp.node) (messages := some (resultMessages s.messages (msgsFor args3) none)))
+    | some _ => .ok [])
+
+end Pyshacl
